@@ -307,6 +307,12 @@ class Check:
             "known_findings_confirmed": [k.get("key") for k in known_printed],
             "notes": self.notes,
         }
+        if cov["discharged"] < 1:
+            # nothing could be discharged on this run (the build of the theorem module failed): the proof-level keys would be
+            # untrue, so only the exploration-style counts are reported (the schema's fallback for level "proof")
+            cov["proof_obligations_broken"] = True
+            cov["obligations_expected"] = cov.pop("obligations")
+            cov.pop("discharged")
         ev = {"property_id": self.prop, "tier": self.tier, "seed": self.seed, "level": level, "coverage": cov,
               "assumptions": self.assumptions, "wall_s": round(time.time() - self.t0, 2), "violations": violations}
         os.makedirs(os.path.join(VERIF, "evidence"), exist_ok=True)
